@@ -18,9 +18,14 @@ NANC = C(True, z3.RealVal(0), z3.RealVal(0))
 def continuous(mu, dt):
     """lambda = log(mu) / dt"""
     c = cur()
+    old, c.numpy_mode = c.numpy_mode, 0
+    try:
+        inv = sym.div(1, dt)        # Python float division (dt is a Python number): ZeroDivisionError at dt == 0, not inf
+    finally:
+        c.numpy_mode = old
     c.numpy_mode += 1
     try:
-        return sym.mul(sym.log_(mu), sym.div(1, dt))
+        return sym.mul(sym.log_(mu), inv)
     finally:
         c.numpy_mode -= 1
 
@@ -58,7 +63,7 @@ def shapes(Cm, V, blank=None):
             return sym.div(rf(((ch,), (i,))), rf(((piv,), (i,))))
         finally:
             c.numpy_mode -= 1
-    return Arr(((n,), raw.axes[0]), cell, "complex")
+    return Arr(((n,), raw.axes[0]), cell, "complex"), raw
 
 
 class _Modal(Contract):
@@ -76,18 +81,26 @@ class _Modal(Contract):
         dt = S.real("dt", pos=True)
         return A, Cm, dt
 
+    def raw_shape(self, c, i):
+        """column i of C V (for pLSCF: with the eigenvector of a blanked root replaced by NaN), as the specification built it"""
+        raw = c.memo["ghost:raw"]
+        rf = raw.snapshot_fn()
+        return Arr((raw.axes[0],), lambda jd: rf((jd[0], (i,))), "complex")
+
     def unit_lemma(self, c, phi):
         """C08: every finite reported shape has a component equal to 1 and none larger in magnitude"""
         i = S.integer("mode_i", lo=0)
 
         def lem():
-            row = Arr((phi.axes[1],), lambda idx: phi.cell(((i,), idx[0])), "complex")
+            # the divisor is the component of C v_i of largest magnitude (argmax contract, first one on ties); the reported
+            # component at that position is x / x = 1 whenever the shape is finite
+            raw = self.raw_shape(c, i)
             c.numpy_mode += 1
             try:
-                piv = N.argmax(N.abs_(row))
-                top = row.cell(((piv,),))
-                fin = Not_(N.any_(N.isnan(row)))
-                c.oblige("lemma", "largest-magnitude component of a finite shape equals 1", sym.Implies_(fin, And_(top.re == 1, top.im == 0)))
+                piv = N.argmax(N.abs_(raw))
+                top = phi.cell(((i,), (piv,)))
+                c.oblige("lemma", "the largest-magnitude component of a finite shape is reported as 1",
+                         sym.Implies_(Not_(top.nan), And_(top.re == 1, top.im == 0)))
             finally:
                 c.numpy_mode -= 1
         c.subproof(i < phi.shape[0], lem)
@@ -109,7 +122,8 @@ class ac2mp(_Modal):
         lf = lam.snapshot_fn()
         fn = Arr(w.axes, lambda idx: freq_damp(lf(idx))[0], "float")
         xi = Arr(w.axes, lambda idx: freq_damp(lf(idx))[1], "float")
-        phi = shapes(C, vr)
+        phi, raw = shapes(C, vr)
+        c.memo["ghost:raw"] = raw
         if calc_unc is True:
             return (fn, xi, phi, lam, w, vl, vr)
         return (fn, xi, phi, lam, None, None, None)
@@ -175,7 +189,8 @@ class _Poly(_Modal):
         lf = lam.snapshot_fn()
         fn = Arr(w.axes, lambda idx: freq_damp(lf(idx))[0], "float")
         xi = Arr(w.axes, lambda idx: freq_damp(lf(idx))[1], "float")
-        phi = shapes(C, vr, blank=unstable)
+        phi, raw = shapes(C, vr, blank=unstable)
+        c.memo["ghost:raw"] = raw
         return (fn, xi, phi, lam)
 
     def check(me, c, pre, post, outcome):
@@ -194,8 +209,9 @@ class _Poly(_Modal):
                     bad = sym.lt(0, sym.real_(continuous(w.cell(((i,),)), dt)))
                     ch = S.integer("ch", lo=0)
                     c.assume(ch < phi.shape[1])
-                    c.oblige("lemma", "a root with positive real part is blanked in all four tables",
-                             sym.Implies_(bad, And_(fn.cell(((i,),)).nan, xi.cell(((i,),)).nan, lam.cell(((i,),)).nan, phi.cell(((i,), (ch,))).nan)))
+                    for nm, fl in (("frequency", fn.cell(((i,),)).nan), ("damping", xi.cell(((i,),)).nan), ("pole", lam.cell(((i,),)).nan),
+                                   ("shape", phi.cell(((i,), (ch,))).nan)):
+                        c.oblige("lemma", f"a root with positive real part is blanked in the {nm} table", sym.Implies_(bad, fl))
                 finally:
                     c.numpy_mode -= 1
             c.subproof(i < w.shape[0], lem)
@@ -209,7 +225,7 @@ class ac2mp_poly_per(_Poly):
     def _not_blanked(me, c, A, C, dt, methodSy, nxseg):
         w, vr = MM.eig(A)
         r = _Poly.spec(me, c, A, C, dt, methodSy, nxseg)
-        return (r[0], r[1], shapes(C, vr), r[3])
+        return (r[0], r[1], shapes(C, vr)[0], r[3])
     canaries = {"shapes of unstable roots not blanked": spec_canary(_not_blanked)}
 
 
@@ -217,3 +233,82 @@ class ac2mp_poly_per(_Poly):
 class ac2mp_poly_cor(_Poly):
     name = "cor"
     method = "cor"
+
+
+# ----------------------------------------------------------------------------------------------------------------------
+# ssi.SSI_poles (no uncertainty, step 1): column c of every table holds the c poles of the order-c model - frequency,
+# damping, shape and pole of ONE eigenvalue per row - and NaN below; column 0 is empty
+# ----------------------------------------------------------------------------------------------------------------------
+from pyvc.interp import LoopSpec   # noqa: E402
+from pyvc.sym import Seq   # noqa: E402
+
+I = z3.IntSort()
+
+
+def _models(c, ordmax, nch):
+    fa = MM.fn("AA", I, MM.Mat)
+    fc = MM.fn("CC", I, MM.Mat)
+    AA = Seq(sym.add(ordmax, 1), lambda k: MM.mat_arr(fa(zi(k)), (k, k), "float"), label="AA")
+    CC = Seq(sym.add(ordmax, 1), lambda k: MM.mat_arr(fc(zi(k)), (nch, k), "float"), label="CC")
+    return AA, CC
+
+
+def pole_tables(c, AA, CC, ordmax, dt, nch, upto):
+    """tables with the columns 1..upto-1 filled (upto = ordmax + 1: all)"""
+    k = ac2mp()
+
+    def col(cix):
+        return k.spec(c, AA.get(cix), CC.get(cix), dt, False)
+
+    def cell(which, nanv):
+        def f(idx):
+            r, cix = idx[0][0], idx[1][0]
+            last = sym.simp(sym.sub(upto, 1))
+            if not sym.is_pyint(cix) and not sym.is_pyint(last) and c.branch(sym.eq(cix, last)):
+                # the newest column, written exactly as the loop body addresses it (1 + k): same terms on both sides
+                cix = last
+            filled = And_(sym.le(1, cix), sym.lt(cix, upto), sym.lt(r, cix))
+            if which == 2:
+                return sym.Lazy.choose(filled, lambda: col(cix)[2].cell(((r,), idx[2])), lambda: nanv)
+            return sym.Lazy.choose(filled, lambda: col(cix)[which].cell(((r,),)), lambda: nanv)
+        return f
+    n1 = sym.add(ordmax, 1)
+    return {"Fn": Arr(((ordmax,), (n1,)), cell(0, NAN), "float"), "Xi": Arr(((ordmax,), (n1,)), cell(1, NAN), "float"),
+            "Phi": Arr(((ordmax,), (n1,), (nch,)), cell(2, NANC), "complex"), "Lambdas": Arr(((ordmax,), (n1,)), cell(3, NANC), "complex")}
+
+
+@register
+class SSI_poles(Contract):
+    qualname = "pyoma2.functions.ssi.SSI_poles"
+    props = ("C01",)
+    generic_replay = False
+    bounded_driver = {"driver": "c01_exact", "inputs": {"trials": 6}}
+    use = {"pyoma2.functions.ssi.ac2mp": None}
+
+    def witness(self, o):
+        return dict(self.bounded_driver)
+
+    def setup(self, c):
+        ordmax = S.integer("ordmax", lo=1)
+        nch = S.integer("Nch", lo=1)
+        AA, CC = _models(c, ordmax, nch)
+        dt = S.real("dt", pos=True)
+        c.memo["ghost:poles"] = {"AA": AA, "CC": CC, "ordmax": ordmax, "dt": dt, "nch": nch}
+        return {"Obs": sym.Opaque("Obs"), "AA": AA, "CC": CC, "ordmax": ordmax, "dt": dt, "step": 1, "calc_unc": False}
+
+    def spec(me, c, Obs, AA, CC, ordmax, dt, step=1, calc_unc=False, Q1=None, Q2=None, Q3=None, Q4=None):
+        g = c.memo["ghost:poles"]
+        t = pole_tables(c, g["AA"], g["CC"], g["ordmax"], g["dt"], g["nch"], sym.add(g["ordmax"], 1))
+        return (t["Fn"], t["Xi"], t["Phi"], t["Lambdas"], None, None, None)
+
+    def _loop(k, pre, it):
+        c = cur()
+        g = c.memo["ghost:poles"]
+        return pole_tables(c, g["AA"], g["CC"], g["ordmax"], g["dt"], g["nch"], sym.add(k, 1))
+    loops = {0: LoopSpec(_loop)}
+
+    def _real_shapes(me, c, **a):
+        r = me.spec(c, **a)
+        f = r[2].snapshot_fn()
+        return (r[0], r[1], Arr(r[2].axes, lambda idx: sym.toC(sym.real_(f(idx))), "complex"), r[3], None, None, None)
+    canaries = {"shapes stored without their imaginary part": spec_canary(_real_shapes)}
